@@ -153,6 +153,19 @@ impl Git {
         Ok(output.status.success())
     }
 
+    /// Run a git command and return its exit code (`None` if it was killed by a signal).
+    fn cmd_code(&self, dir: &Path, args: &[&str]) -> Result<Option<i32>> {
+        let output = Command::new(&self.path)
+            .args(args)
+            .current_dir(dir)
+            .output()?;
+        let stderr = String::from_utf8_lossy(&output.stderr);
+        if !stderr.is_empty() {
+            log::debug!("git {}: stderr: {}", args.join(" "), stderr.trim_end());
+        }
+        Ok(output.status.code())
+    }
+
     /// Run a git command, returning an error if it exits non-zero.
     fn cmd(&self, dir: &Path, args: &[&str]) -> Result<()> {
         if !self.cmd_ok(dir, args)? {
@@ -368,11 +381,19 @@ impl GitSyncServer {
         }
         // Check whether the remote branch exists before fetching. A bare repo with no commits
         // has no refs yet, and `git fetch origin <branch>` would fail in that case.
-        if !self.git.cmd_ok(
+        // With `--exit-code`, git exits with 2 if the branch does not exist; anything else
+        // means the remote could not be asked, which must not be mistaken for an empty remote.
+        match self.git.cmd_code(
             &self.local_path,
             &["ls-remote", "--exit-code", "--heads", remote, &self.branch],
         )? {
-            return Ok(());
+            Some(0) => {}
+            Some(2) => return Ok(()),
+            _ => {
+                return Err(Error::Server(format!(
+                    "could not reach git remote {remote}"
+                )))
+            }
         }
         // Warn if there are uncommitted changes that the hard reset will discard. This should
         // only happen if a previous write was interrupted. clean_stray_files handles the fallout.
